@@ -170,7 +170,7 @@ def run(ctx):
     kn = World(random.Random(1)).trace_known
     extra = 0
     for i, b in enumerate(behs):
-        if any('KN' in p for p in b['prog']) and (not ctx.quick or i % 3 == 0):
+        if any('KN' in p for p in b['prog']) and (not ctx.quick or i % 8 == 0):
             for name in kn:
                 extra += 1
                 replay_schedule(ctx, b, known=name)
@@ -209,6 +209,32 @@ def run(ctx):
                     ctx.violation('C05/solo-vs-interleaved@%s' % cls,
                                   'thread %d differs at its event %d: interleaved %s, solo %s' % (t, d + 1, a, b),
                                   {'kind': 'code->spec', 'stream': describe(w, stream), 'thread': t})
+    # SCALE: many threads at once (a per-thread table that is bounded, evicts or hashes coarsely shows only then): every
+    # thread records new-thread / exec data and string records twice, all threads merged record by record
+    nbig = 0
+    for i in range(3 if ctx.quick else 40):
+        w = World(rnd)
+        nt = rnd.choice([70, 100, 140])
+        progs = []
+        for t in range(1, nt + 1):
+            p = [w.ntd(t, 1000 + t, 2000 + t), w.nts(t, 'n%d' % t), w.exd(t, 3000 + t), w.exs(t, 'x%d' % t),
+                 w.ntd(t, 1000 + t, 4000 + t), w.nts(t, 'm%d' % t)]
+            progs.append(p[:rnd.choice([2, 4, 6, 6])])
+        solos = {t: thread_view(w, p, run_stream(w, p), t) for t, p in enumerate(progs, 1)}
+        for j in range(2):
+            stream = gen.interleave(rnd, progs, burst=rnd.choice([1, 1, 2]))
+            ex = run_stream(w, stream)
+            nbig += 1
+            for t in range(1, nt + 1):
+                v = thread_view(w, stream, ex, t)
+                if v != solos[t]:
+                    ctx.violation('C05/solo-vs-interleaved@many-threads',
+                                  '%d threads merged: thread %d differs from its solo run: interleaved %s, solo %s'
+                                  % (nt, t, v, solos[t]), {'kind': 'code->spec', 'stream': describe(w, stream), 'thread': t})
+                    break
+            if j == 0 and i < 2:
+                cases.append(('big%d' % i, w, stream))
+    ctx.extra['many_thread_streams'] = nbig
     # the interleavings of one program set (same world) also run on separate parser objects fed alternately
     validate_streams(ctx, cases, 'full', 'c05val', alternate_rnd=rnd)
     ctx.extra['code'] = {'program_sets': nsets, 'interleavings_each': nil, 'solo_comparisons': solo_cmp}
